@@ -1,3 +1,4 @@
+from calendar import monthrange
 from datetime import datetime
 from typing import Any, Dict, Optional, Tuple, Type, TypeVar
 
@@ -23,6 +24,11 @@ class Artifact:
         return self.mend - self.mstart
 
     def __bool__(self) -> bool:
+        return True
+
+    @property
+    def isValid(self) -> bool:
+        """whether the artifact denotes something that exists (see Time)"""
         return True
 
     def __str__(self) -> str:
@@ -349,6 +355,14 @@ class Time(Artifact):
         return self._hasOnly("year")
 
     @property
+    def isValid(self) -> bool:
+        """the day exists in the month (29 Feb needs a leap year if a year is given)"""
+        if self.month is None or self.day is None:
+            return True
+        year = self.year if self.year is not None else 2000
+        return 1 <= self.day <= monthrange(year, self.month)[1]
+
+    @property
     def hasDate(self) -> bool:
         """at least a date"""
         return self._hasAtLeast("year", "month", "day")
@@ -466,6 +480,12 @@ class Interval(Artifact):
         if self.t_from is None or self.t_to is None:
             return False
         return self.t_from.isDate and self.t_to.isDate
+
+    @property
+    def isValid(self) -> bool:
+        return (self.t_from is None or self.t_from.isValid) and (
+            self.t_to is None or self.t_to.isValid
+        )
 
     def __str__(self) -> str:
         return "{} - {}".format(str(self.t_from), str(self.t_to))
